@@ -599,9 +599,26 @@ def _ones_like(x, **k):
     return _new(a)
 
 
+_UNINIT = [0]
+
+
+def _uninitialised(shape):
+    """torch.empty*: the contents are whatever the allocator left there - fresh, unconstrained symbols (a result that
+    depends on them cannot be proved equal to anything)"""
+    _UNINIT[0] += 1
+    return fresh(tuple(int(s) for s in shape), "uninitialised_memory_%d" % _UNINIT[0])
+
+
 @H("empty_like")
 def _empty_like(x, **k):
-    return _zeros_like(x)
+    return _uninitialised(tuple(x.shape))
+
+
+@H("new_empty")
+def _new_empty(self, *size, **k):
+    if len(size) == 1 and isinstance(size[0], (tuple, list, torch.Size)):
+        size = tuple(size[0])
+    return _uninitialised(size)
 
 
 # ---- arithmetic
